@@ -7,7 +7,9 @@
 //! 1. **Hard Limits**: Allocations that would exceed the budget fail immediately
 //! 2. **Reserved Pools**: Each subsystem has a guaranteed minimum allocation
 //! 3. **Shared Overflow**: When reserved is exhausted, shared pool is used
-//! 4. **Thread Safety**: All counters use atomics for lock-free operation
+//! 4. **Thread Safety**: All counters are atomics; `release` and the readers are lock-free,
+//!    `allocate` serialises its check-then-update under `alloc_lock` so that two concurrent
+//!    allocations cannot both pass the limit check against the same snapshot
 //!
 //! ## Pool Allocation Strategy
 //!
@@ -52,6 +54,7 @@ use std::sync::atomic::{AtomicUsize, Ordering};
 use std::sync::OnceLock;
 
 use eyre::{bail, Result};
+use parking_lot::Mutex;
 use sysinfo::System;
 
 pub use crate::config::{
@@ -169,6 +172,10 @@ pub struct MemoryBudget {
     recovery_used: AtomicUsize,
     schema_used: AtomicUsize,
     shared_used: AtomicUsize,
+    /// Held by `allocate` from its first counter load to its compare-exchange. While it is
+    /// held no counter can grow (only `release` runs concurrently), so the total that was
+    /// checked against the limit is an upper bound of the real total when the update lands.
+    alloc_lock: Mutex<()>,
 }
 
 impl MemoryBudget {
@@ -195,6 +202,7 @@ impl MemoryBudget {
             recovery_used: AtomicUsize::new(0),
             schema_used: AtomicUsize::new(0),
             shared_used: AtomicUsize::new(0),
+            alloc_lock: Mutex::new(()),
         }
     }
 
@@ -259,6 +267,8 @@ impl MemoryBudget {
 
         let pool_counter = self.pool_counter(pool);
         let reserved = pool.reserved_size();
+
+        let _alloc_guard = self.alloc_lock.lock();
 
         loop {
             let current_pool_used = pool_counter.load(Ordering::Acquire);
